@@ -161,6 +161,10 @@ func (f *File) isValidAlias(alias string) bool {
 	if IsReservedWord(alias) {
 		return false
 	}
+	// "C" is the name under which the cgo pseudo-package is imported
+	if alias == "C" {
+		return false
+	}
 	// the import alias is invalid if it's already been registered
 	for _, v := range f.imports {
 		if alias == v.name {
